@@ -36,7 +36,20 @@ var commonAssume = []string{
 
 var netStub = "kernel TCP/UDP -> verifsim/simnet (in-memory streams with tape-decided fragmentation, delay, back-pressure, close, reset, refusal)"
 
+var fullStackReal = []string{
+	"tars: Communicator, ServantProxy, AdapterProxy, endpointManager, Protocol (instrumented from the working tree)",
+	"tars/transport: TarsClient, TarsServer, tcpHandler, udpHandler (instrumented)",
+	"tars/util/rtimer time wheels (instrumented, yields off), tars/protocol codec and packet structs (real, atomic to the scheduler)",
+}
+
 var props = []*prop{
+	{
+		ID: "C08", Binary: "simcore", Quick: 1500, Thorough: 40000, RunWall: 120 * time.Second,
+		Variants: []variant{{Scenario: "c08", Weight: 1}},
+		Real:     fullStackReal,
+		Stub:     append([]string{netStub, "server -> scripted peer speaking the wire protocol through an independent reference codec (verifsim/refcodec)"}, commonStub...),
+		Rule:     "one case = one simulated run: 1-8 concurrent callers x 1-5 calls with unique payloads through one real ServantProxy; the scripted server answers each request by a tape-drawn plan (immediate, delayed, duplicated, stray unused id first, id-0 push frame first, around the deadline, late, replay after completion), reads fragmented and deliveries delayed per tape, id counter preset near MaxInt32/-1 in some runs; distinct = distinct (event-log hash, switch trace hash); non-trivial = at least one preemption, stall or fired fault",
+	},
 	{
 		ID: "C19", Binary: "simcore", Quick: 6000, Thorough: 120000, RunWall: 60 * time.Second,
 		Variants: []variant{{Scenario: "c19", Weight: 1}},
